@@ -174,6 +174,19 @@ func (m *iterModel) flatten(s *gen.TypeSpec, v *gen.Val, out []flatField) []flat
 	return out
 }
 
+// recordFields: the fields a record type declares (and every record of it supplies): everything that is
+// not omitted in all cases, i.e. not tagged omit and - under the default "always" - carrying an omit tag of its own.
+func (m *iterModel) recordFields(s *gen.TypeSpec, v *gen.Val) []flatField {
+	var out []flatField
+	for _, f := range m.flatten(s, v, nil) {
+		if f.tag.omit == "" && m.DefaultOmit == "always" {
+			continue
+		}
+		out = append(out, f)
+	}
+	return out
+}
+
 func (m *iterModel) fieldName(t fieldTag) string {
 	if m.Snake {
 		return snakeName(t.name)
@@ -302,7 +315,7 @@ func (m *iterModel) tree(s *gen.TypeSpec, v *gen.Val) *canon.Node {
 	case "struct":
 		if name, ok := m.RecordNames[s.String()]; ok {
 			n := &canon.Node{Kind: canon.KRecord, Bytes: []byte(name)}
-			for _, f := range m.flatten(s, v, nil) {
+			for _, f := range m.recordFields(s, v) {
 				// a record supplies exactly one value per declared field
 				n.Children = append(n.Children, m.tree(f.typ, f.val))
 			}
